@@ -11,6 +11,24 @@ let ex_of (s : Stdlib.String.t) : ascii list -> bool =
   List.iter (fun x -> Hashtbl.replace h x ()) l;
   fun p -> Hashtbl.mem h p
 
+(* the environment field: cwd & link=target;link=target...  (absent or empty: no links, cwd is the root) *)
+let dec_env (s : Stdlib.String.t) : penv =
+  if s = "" then env0 else
+  match Stdlib.String.index_opt s '&' with
+  | None -> { pe_links = []; pe_cwd = dec_str s }
+  | Some i ->
+    let cwd = Stdlib.String.sub s 0 i in
+    let rest = Stdlib.String.sub s (i + 1) (Stdlib.String.length s - i - 1) in
+    let lk = List.map (fun kv ->
+        match Stdlib.String.index_opt kv '=' with
+        | Some j -> (dec_str (Stdlib.String.sub kv 0 j),
+                     dec_str (Stdlib.String.sub kv (j + 1) (Stdlib.String.length kv - j - 1)))
+        | None -> failwith "bad link") (split_sep ';' rest) in
+    { pe_links = lk; pe_cwd = dec_str cwd }
+let env_at (f : Stdlib.String.t array) (i : int) : penv = if Array.length f > i then dec_env f.(i) else env0
+(* a path exists when the name it resolves to is in the listing of the real tree *)
+let ex_in (pe : penv) (s : Stdlib.String.t) : ascii list -> bool = ex_via pe.pe_links (ex_of s)
+
 let split1 (c : char) (s : Stdlib.String.t) : Stdlib.String.t * Stdlib.String.t =
   match String.index_opt s c with
   | Some i -> (String.sub s 0 i, String.sub s (i + 1) (String.length s - i - 1))
@@ -59,7 +77,8 @@ let handle (f : Stdlib.String.t array) : Stdlib.String.t =
   | "vflines" ->
     show_lines (vf_lines { vf_name = dec_val f.(1); vf_version = dec_val f.(2); vf_info = dec_blocks f.(3) })
   | "vfwrite" ->
-    show_lines (vf_write_gen (bool_of_field f.(1)) (ex_of f.(2)) (dec_val f.(3))
+    let pe = env_at f 7 in
+    show_lines (vf_write_gen (bool_of_field f.(1)) pe (ex_in pe f.(2)) (dec_val f.(3))
                   { vf_name = dec_val f.(4); vf_version = dec_val f.(5); vf_info = dec_blocks f.(6) })
   | "addflavor" ->
     let r = add_flavor (dec_str "W") (dec_str "T") (dec_str f.(1)) (dec_val f.(2)) (dec_val f.(3)) (dec_val f.(4))
@@ -83,10 +102,11 @@ let handle (f : Stdlib.String.t array) : Stdlib.String.t =
     let ex = ex_of f.(1) in
     "ok\t" ^ enc_product (resolve_paths ex (mk_product ex p.p_name p.p_version p.p_flavor p.p_dir p.p_table p.p_db p.p_ups))
   | "declare" ->
-    show_lines (db_declare_gen (bool_of_field f.(1)) (ex_of f.(2)) (dec_str "W") (dec_str "T") (dec_product f.(3))
+    let pe = env_at f 5 in
+    show_lines (db_declare_gen (bool_of_field f.(1)) pe (ex_in pe f.(2)) (dec_str "W") (dec_str "T") (dec_product f.(3))
                   (if f.(4) = "~" then None else Some (dec_lines f.(4))))
   | "find" ->
-    (match db_find (ex_of f.(1)) (dec_val f.(2)) (dec_val f.(3)) (dec_str f.(4)) (dec_val f.(5)) (dec_val f.(6))
+    (match db_find (ex_in (env_at f 8) f.(1)) (dec_val f.(2)) (dec_val f.(3)) (dec_str f.(4)) (dec_val f.(5)) (dec_val f.(6))
              (dec_lines f.(7)) with
      | Ok (Some p) -> "ok\t" ^ enc_product p
      | Ok None -> "none"
@@ -105,7 +125,7 @@ let handle (f : Stdlib.String.t array) : Stdlib.String.t =
         | _ -> failwith "bad add") (split_sep '|' f.(5)) in
     let r = List.fold_left (fun r (fl, d, t, u) -> add_flavor (dec_str "W") (dec_str "T") fl d t u r)
         { vf_name = dec_val f.(3); vf_version = dec_val f.(4); vf_info = [] } adds in
-    (match vf_write_gen true ex (dec_val f.(2)) r with
+    (match vf_write_gen true (env_at f 6) ex (dec_val f.(2)) r with
      | Ok l -> "ok\t" ^ enc_blocks r.vf_info ^ "\t" ^ enc_lines l
      | Err k -> "err\t" ^ err_name k)
   | "cfassign" ->
@@ -135,8 +155,9 @@ let handle (f : Stdlib.String.t array) : Stdlib.String.t =
     (match vf_read None None (dec_lines f.(1)) with
      | Ok r ->
        if not (List.exists (fun (k, _) -> k = dec_str f.(2)) r.vf_info) then "ok\t" ^ enc_lines (dec_lines f.(1))
-       else show_lines (vf_write_gen true (fun _ -> false) None (vf_remove_flavor (dec_str f.(2)) r))
+       else show_lines (vf_write_gen true env0 (fun _ -> false) None (vf_remove_flavor (dec_str f.(2)) r))
      | Err k -> "err\t" ^ err_name k)
+  | "realpath" -> "ok\t" ^ enc_str (realpath (dec_env f.(1)).pe_links (dec_str f.(2)))
   | "vfclass" -> show_class (vf_classify (dec_str f.(1)))
   | "cfclass" -> show_class (cf_classify (dec_str f.(1)))
   | _ -> failwith "unknown op"
